@@ -1,23 +1,22 @@
-(* C29 obligation: Le(a,b) is true exactly when val a <= val b.
-   - all exact reals (any representation, any size) and +-oo: proved;
-   - pairs involving doubles: proved on the complete palette the check runs, outside two classes
-     in which the statement is REFUTED (each replayed on the library):
-       * an exact operand is truncated to double before the subtraction
-         (Le(2^53+1, RealDouble(2^53)) = True; `le I:9007199254740993 D:4340000000000000`),
-       * an infinite double against the symbolic infinity (Le(oo, RealDouble(inf)) = False).
+(* C29 obligation: Le(a,b) is true exactly when val a <= val b, for ALL real numbers of all kinds
+   and values, outside the two classes of lt_guard in which the statement is REFUTED (each
+   replayed on the library):
+     * an exact operand is truncated to double before the subtraction
+       (Le(2^53+1, RealDouble(2^53)) = True; `le I:9007199254740993 D:4340000000000000`),
+     * an infinite double against the symbolic infinity (Le(oo, RealDouble(inf)) = False).
    (Until commit 117ad73 Le also failed on equal values of different kinds, Le(1, 1.0) = False;
    found by this slice, case `le I:1 D:3ff0000000000000`; the model follows the repair.) *)
-From SE Require Import Num.NumModel Num.NumPalette Num.NumC29 Num.NumC29P.
+From SE Require Import Num.NumModel Num.NumC29 Num.NumC29F Num.NumC29P.
+Theorem C29_Le_correct_guarded :
+  forall a b x y, num_wf a = true -> num_wf b = true -> val a = Some x -> val b = Some y ->
+  lt_guard a b = false -> rel_le a b = Ok (Some (ext_leb x y)).
+Proof. intros a b x y Ha Hb Hx Hy Hg. exact (proj2 (Lt_Le_correct_guarded a b x y Ha Hb Hx Hy Hg)). Qed.
+Print Assumptions C29_Le_correct_guarded.
 Theorem C29_Le_correct_exact :
   forall a b x y, xreal a = true -> xreal b = true -> val a = Some x -> val b = Some y ->
   rel_le a b = Ok (Some (ext_leb x y)).
 Proof. exact Le_correct_exact. Qed.
 Print Assumptions C29_Le_correct_exact.
-Theorem C29_Le_correct_palette_guarded :
-  forall a b, In a real_palette -> In b real_palette -> le_guard a b = false ->
-  exists x y, val a = Some x /\ val b = Some y /\ rel_le a b = Ok (Some (ext_leb x y)).
-Proof. exact Le_correct_palette_guarded. Qed.
-Print Assumptions C29_Le_correct_palette_guarded.
 Theorem C29_Le_correct_refuted :
   (exists a b x y, val a = Some x /\ val b = Some y /\ ext_leb x y = false /\ rel_le a b = Ok (Some true) /\
                    guard_inexact_conv a b = true) /\
